@@ -273,7 +273,7 @@ pub fn check(args: &Args) -> Outcome {
     let prefixes = ["", "a", "ab", "b"];
     let alpha = alphabet(&keys, &vals);
     let na = alpha.len() as u64;
-    let no_replica = args.has("--no-replica");
+    let no_replica = args.has("--no-replica") || args.has("--miri");
     let maxlen = if args.has("--miri") { 2 } else { args.tier.pick(4u32, 5u32) };
     // exhaustive part: all sequences of length exactly `maxlen` (their prefixes are the shorter sequences),
     // split by the first two ops into jobs
